@@ -14,6 +14,7 @@
 EXTENDS Naturals, Integers, Sequences, FiniteSets, TLC
 
 Str(cp)     == [t |-> "str", cp |-> cp]
+StrS(cp, s) == [t |-> "str", cp |-> cp, s |-> s]  \* a string that is also needed as a TLA+ string (computed keys)
 Num(n)      == [t |-> "num", n |-> n]
 Bool(b)     == [t |-> "bool", b |-> b]
 Null        == [t |-> "null"]
@@ -82,7 +83,7 @@ OnName(k) ==                     \* transformOn: "on" + capitalised key
 
 IsOnKey(k) ==                    \* /^on[^a-z]/ over the prop-key alphabet in use
   k \in {"onClick", "onFoo", "onBar", "onUpdate:modelValue", "onUpdate:foo", "onUpdate:bar",
-         "onMouseenter", "on:x", "onUpdate:x", "onUpdate:m", "onUpdate:dyn", "onUpdate:title"}
+         "onMouseenter", "on:x", "onUpdate:x", "onUpdate:m", "onUpdate:dyn", "onUpdate:title", "onUpdatedyn"}
 
 (* ------------------------------------------------------------------ *)
 (* Vue: normalizeClass / normalizeStyle                                *)
